@@ -149,6 +149,29 @@ func runLeakCase(c lkCase, bin, base string) map[string]interface{} {
 					}
 				}
 			}
+		case "raw_accept_closed":
+			// the host application accepts two ids itself; it closes the first listener when it is done with it
+			// and leaves the second to the shutdown
+			if gb, ok := stub.Broker.(vp.GRPCAPI); ok && wire == "grpc" && !mux && c.TLS == "" {
+				closeFirst, err := gb.ServeWhoRawCloser(id, "first")
+				if err != nil {
+					ok = false
+					out["op_err"] = fmt.Sprint(err)
+					break
+				}
+				if r, err := stub.Do(vp.Cmd{Op: "dial", ID: id}); err != nil || r.S != "first" {
+					out["op_note"] = fmt.Sprintf("raw closed first: %v %q", err, r.S)
+				}
+				closeFirst()
+				if err := gb.ServeWhoRaw(id+5000, "second"); err != nil {
+					ok = false
+					out["op_err"] = fmt.Sprint(err)
+					break
+				}
+				if r, err := stub.Do(vp.Cmd{Op: "dial", ID: id + 5000}); err != nil || r.S != "second" {
+					out["op_note"] = fmt.Sprintf("raw closed second: %v %q", err, r.S)
+				}
+			}
 		case "unmatched_dials":
 			// the plugin dials one id twice at once, nobody ever accepts: both calls give up
 			var wg sync.WaitGroup
